@@ -56,7 +56,7 @@ type inst struct {
 	disconnected bool
 }
 
-var rawSpecials = []string{"{\"k\":1}\n", "[1,\n 2]", "\"t\"\r\n"}
+var rawSpecials = []string{"\"50% done %d %s %% %!\"", "{\"k\":1}\n", "[1,\n 2]", "\"t\"\r\n"}
 
 var specials = []string{`"a\nb"`, `"data: x\r\n\r\n--graphql--"`, `"event: complete"`}
 
@@ -464,6 +464,8 @@ func scenarios(tier string) []*explore.Scenario {
 	}
 	// payload contents with raw JSON whitespace
 	add(scen{Transport: "sse", Query: "subscription{s2}", Payloads: 2, RawWS: true})
+	add(scen{Transport: "sse", Query: "subscription{s2}", Payloads: 4, RawWS: true})
+	add(scen{Transport: "mixed", Query: "{a name}", Payloads: 4, RawWS: true})
 	add(scen{Transport: "sse", Query: "subscription{s2}", Payloads: 3, KeepAlive: true, RawWS: true})
 	add(scen{Transport: "mixed", Query: "{a name}", Payloads: 2, RawWS: true})
 	add(scen{Transport: "mixed", Query: "{a name}", Payloads: 2, Paths: true})
